@@ -40,7 +40,7 @@ func init() {
 		Assumptions: []string{
 			"scalar constraint values are opaque: only non-zero values are generated (Go omits zero values when marshalling)",
 			"encoding/json, the openapi2/openapi3 (un)marshallers and ResolveRefsIn are exercised, not modelled",
-			"(*openapi3.T).Validate is modelled only by the component-name check (#38); generated documents stay inside what the rest of Validate accepts",
+			"(*openapi3.T).Validate is modelled only by the component-name check (#38) and the request-body content rule (F-C17-14); generated documents stay inside what the rest of Validate accepts",
 			"a shared form parameter is recognised in a v3 document by the library's own bookkeeping extension x-formData-name",
 			"operations with formData parameters declare a form media type in consumes (required by the OpenAPI 2 specification)",
 			"servers: an absent scheme is read as https and an absent base path as / (the converter's documented defaults)",
